@@ -393,6 +393,30 @@ fn exec_get(out: &mut Out, sc: &mut Scen, line: &str, idx: &str, path: &str) -> 
         sc.collect_root_hits();
         traces.push(sc.log.lock().unwrap().clone());
     }
+    // every 8th get also goes through a real server built from this very router (blocking or async by
+    // op parity): what `route()` + the borrowed dispatch do with this path – "" and "/" included – must
+    // reach the same middleware and handler
+    if idx.parse::<u64>().map(|i| i % 8 == 0).unwrap_or(false) && GET_E2E_DONE.load(Ordering::SeqCst) < E2E_CAP.load(Ordering::SeqCst) / 3 {
+        GET_E2E_DONE.fetch_add(1, Ordering::SeqCst);
+        sc.log.lock().unwrap().clear();
+        let srv = if rid % 2 == 0 { 0 } else { 8 };
+        match tcp_roundtrip(sc.router.clone(), &[req.to_vec()], srv, 0, rid) {
+            Ok(_) => {
+                out.count("get.e2e.ok");
+                sc.collect_root_hits();
+                let t = sc.log.lock().unwrap().clone();
+                if t != traces[0] {
+                    out.oracle_fail("router.get.server_trace", &format!("path {:?} through a {} server reached {:?}, in-process dispatch reaches {:?}", path, if srv == 0 { "blocking" } else { "async" }, t, traces[0]), &ops);
+                }
+            }
+            Err(e) => {
+                out.count(&format!("get.e2e.io_error.{}", e));
+                if e == "no_response" {
+                    out.oracle_fail("router.get.server_no_response", &format!("path {:?}: the server did not answer although the router resolves the path", path), &ops);
+                }
+            }
+        }
+    }
     if traces[1] != traces[0] || traces[2] != traces[0] {
         out.oracle_fail("router.trace.route_mismatch", &format!("handle / handle_with_ctx / handle_view saw different middleware or handlers for {:?}: {:?}", path, traces), &ops);
     }
@@ -688,7 +712,8 @@ fn twin_router(c: &TwinCfg, blocking: bool, nmw: usize, order: u8, counts: &[Arc
 
 static E2E_DONE: AtomicU64 = AtomicU64::new(0);
 static NO_RESPONSE_SEEN: AtomicU64 = AtomicU64::new(0);
-static E2E_CAP: AtomicU64 = AtomicU64::new(600);
+static GET_E2E_DONE: AtomicU64 = AtomicU64::new(0);
+static E2E_CAP: AtomicU64 = AtomicU64::new(1500);
 
 fn async_rt() -> &'static tokio::runtime::Runtime {
     // deliberately starved: one worker, one blocking thread (class l: nothing to spare when a response is due)
@@ -1969,7 +1994,11 @@ impl Gen {
         let order = ov.order.unwrap_or_else(|| self.rng.below(2));
         let voff = self.rng.below(9);
         // where the route lives: the usual short path, non-ASCII, long, deep
-        let tpath: String = match self.rng.below(8) {
+        let exact_kind = !matches!(kind, "registry" | "struct");
+        let tpath: String = match self.rng.below(10) {
+            // the zero-segment path: an exact route AT "", or a mount at the root with "" as the request path
+            8 => if exact_kind { String::new() } else { "/x".to_string() },
+            9 => if exact_kind { "/".to_string() } else { "/x".to_string() },
             0 => "/é/日本".to_string(),
             1 => format!("/{}/{}", "p".repeat(self.rng.range(1, 300) as usize), "q".repeat(self.rng.range(1, 300) as usize)),
             2 => "/a/b/c/d/e/f/g/h/i/j/k/l/m/n/o/p/q/r/s/t".to_string(),
@@ -2207,7 +2236,7 @@ fn main() {
         None => generate(&args),
     };
     if args.thorough() {
-        E2E_CAP.store(2500, Ordering::SeqCst);
+        E2E_CAP.store(6000, Ordering::SeqCst);
     }
     let mut sc = Scen::new();
     let mut ds = DState::new();
